@@ -631,9 +631,9 @@ func c18(c *ctx) {
 		o.case_("witnesses", true)
 	}
 	// (3) random operation sequences over three UIDs (+ a 1-byte and a 20-byte UID)
-	nScripts, maxOps := 500, 12
+	nScripts, maxOps := 1200, 12
 	if c.thorough() {
-		nScripts, maxOps = 6000, 24
+		nScripts, maxOps = 20000, 30
 	}
 	kinds := map[string]int{}
 	for s := 0; s < nScripts; s++ {
